@@ -91,13 +91,13 @@ impl Check for C09 {
         "exploration"
     }
     fn rule(&self) -> String {
-        "case = per-partition histories (0-70 transactions of 1-3 events over 2 streams on 2 partitions) written directly with a confirmed prefix and an unconfirmed tail, handed to the real node (replication factor 1-5 per worker), then one subscription (single partition, several partitions, all partitions, single stream, several streams; start none='latest', 0, middle, at the watermark, beyond; window 1/2/5/50/1000) and 3-30 tape-ordered operations: confirm the next (or next-but-one) unconfirmed transactions through ConfirmTransaction, append new transactions (ExecuteTransaction on rf=1 workers; ReplicateWrite, confirmed or not, otherwise), acknowledge cursors, receive, a burst of 1050 confirmed events without receiving (more than the broadcast channel holds, so a window-blocked subscription lags and must re-read history), and - through hook H3, an async gate after each history batch - confirm transactions while a history read is between two batches. Oracle on the delivered sequence: cursors increase by one from 0; per partition (or per stream) positions increase by exactly one from the start position (no gap, no duplicate, no reordering); every delivered event lies in the prefix the harness itself has confirmed so far; delivered minus acknowledged never exceeds the window; with an explicit start position, after quiescence and a bounded wait every confirmed matching event has been delivered. Non-trivial: a history read was held at the gate while the watermark advanced, or acknowledgements throttled delivery (window smaller than the deliverable events), or a burst overflowed the broadcast channel.".into()
+        "case = per-partition histories (0-70 transactions of 1-3 events over 2 streams on 2 partitions) written directly with a confirmed prefix and an unconfirmed tail, handed to the real node (replication factor 1-5 per worker), then one subscription (single partition, several partitions, all partitions, single stream, several streams; start none='latest', 0, middle, at the watermark, beyond; window 1/2/5/50/1000) and 3-30 tape-ordered operations: confirm the next (or next-but-one) unconfirmed transactions through ConfirmTransaction, append new transactions (ExecuteTransaction on rf=1 workers; ReplicateWrite, confirmed or not, otherwise), acknowledge cursors, receive, a burst of 1050 confirmed events without receiving (more than the broadcast channel holds, so a window-blocked subscription lags and must re-read history), and - through hook H3, an async gate after each history batch - confirm transactions while a history read is between two batches. Oracle on the delivered sequence: cursors increase by one from 0; per partition (or per stream) positions increase by exactly one from the start position (no gap, no duplicate, no reordering); every delivered event lies in the prefix the harness itself has confirmed so far; delivered minus acknowledged never exceeds the window; with an explicit start position, after the last operation every confirmed matching event is delivered (the case waits for exactly the owed deliveries, up to 20 s / 120 s after a burst). Non-trivial: a history read was held at the gate while the watermark advanced, or acknowledgements throttled delivery (window smaller than the deliverable events), or a burst overflowed the broadcast channel.".into()
     }
     fn assumptions(&self) -> Vec<String> {
         vec![
             "the node's watermark can never exceed what the harness itself confirmed (single node, no other writers), so 'confirmed' is judged against the harness's own prefix without access to node internals".into(),
             "a 'latest' subscription's start position is the confirmed length of the partition/stream at subscription time; deliveries below it are reported under their own signature".into(),
-            "eventual delivery is checked as: within 3 s after quiescence".into(),
+            "eventual delivery is checked as: all owed deliveries arrive within 20 s (120 s after a burst) of the last operation".into(),
         ]
     }
     fn plan(&self, tier: Tier) -> Plan {
@@ -497,7 +497,41 @@ impl Check for C09 {
             release.notify_one();
             let mut idle = 0;
             let t0 = tokio::time::Instant::now();
-            while fail.is_none() && idle < 6 && t0.elapsed() < Duration::from_secs(if bursts > 0 { 60 } else { 3 }) {
+            // with an explicit start position the number of deliveries owed is known: wait for
+            // them (the case ends as soon as they are in, the deadline only matters on failure
+            // and is generous so that a loaded machine cannot turn into a report)
+            let owed: Option<usize> = explicit_from.map(|from| {
+                let mut n = 0usize;
+                for p in 0..2u16 {
+                    let pm = &parts[&p];
+                    let w = pm.watermark();
+                    if !is_stream_sub && covered_parts.contains(&p) {
+                        n += w.saturating_sub(from) as usize;
+                    }
+                    if is_stream_sub {
+                        n += pm.events.iter().filter(|e| covered_streams.contains(&e.stream) && e.seq < w && e.version >= from).count();
+                    }
+                }
+                n
+            });
+            let deadline = Duration::from_secs(if bursts > 0 { 120 } else { 20 });
+            loop {
+                if fail.is_some() || t0.elapsed() >= deadline {
+                    break;
+                }
+                match owed {
+                    Some(n) => {
+                        // a few extra rounds after the last owed delivery catch duplicates
+                        if next_cursor as usize >= n && idle >= 3 {
+                            break;
+                        }
+                    }
+                    None => {
+                        if idle >= 6 {
+                            break;
+                        }
+                    }
+                }
                 let before = next_cursor;
                 drain!(50u64);
                 if next_cursor > 0 && acked.map(|a| a + 1 < next_cursor).unwrap_or(true) {
@@ -523,7 +557,7 @@ impl Check for C09 {
                             let want: Vec<u64> = (from..w).collect();
                             let got = delivered.get(&format!("p{p}")).cloned().unwrap_or_default();
                             if got != want {
-                                fail = Some(("missing-after-quiescence".into(), format!("partition {p}: sequences {from}..{w} are confirmed, the subscription (start {from}) was delivered {} of them (last {:?}) within 3 s after the last operation", got.len(), got.last())));
+                                fail = Some(("missing-after-quiescence".into(), format!("partition {p}: sequences {from}..{w} are confirmed, the subscription (start {from}) was delivered {} of them (last {:?}) within the settle deadline (20 s, 120 s after a burst) after the last operation", got.len(), got.last())));
                                 break;
                             }
                         }
@@ -536,7 +570,7 @@ impl Check for C09 {
                                 let want: Vec<u64> = pm.events.iter().filter(|e| e.stream == name && e.seq < w && e.version >= from).map(|e| e.version).collect();
                                 let got = delivered.get(&name).cloned().unwrap_or_default();
                                 if got != want {
-                                    fail = Some(("missing-after-quiescence".into(), format!("stream {name}: versions {:?}..={:?} are confirmed, the subscription (start {from}) was delivered {} of {} (last {:?}) within 3 s after the last operation; deliveries in total {next_cursor}, acknowledged {acked:?}, per key {:?}", want.first(), want.last(), got.len(), want.len(), got.last(), delivered.iter().map(|(k, v)| (k.clone(), v.len())).collect::<std::collections::BTreeMap<_, _>>())));
+                                    fail = Some(("missing-after-quiescence".into(), format!("stream {name}: versions {:?}..={:?} are confirmed, the subscription (start {from}) was delivered {} of {} (last {:?}) within the settle deadline (20 s, 120 s after a burst) after the last operation; deliveries in total {next_cursor}, acknowledged {acked:?}, per key {:?}", want.first(), want.last(), got.len(), want.len(), got.last(), delivered.iter().map(|(k, v)| (k.clone(), v.len())).collect::<std::collections::BTreeMap<_, _>>())));
                                     break;
                                 }
                             }
